@@ -84,6 +84,11 @@ pub fn run(cfg: &Cfg, seed: u64) -> (Arc<World>, crate::sim::SimStats) {
     let (w, stats, ()) = run_sim(seed, |sim| {
         let w = sim.w.clone();
         let layer = CoalesceLayer::new(|r: &Req| r.key);
+        // a third of the scenarios: no service value outlives `call()` (every request is a
+        // `clone().oneshot(req)`, the owner is gone), only the call futures are alive
+        if seed % 3 == 0 {
+            w.oneshot_style.store(1, std::sync::atomic::Ordering::Relaxed);
+        }
         // separate `layer()` calls: every service coalesces on its own
         let svcs = [layer.layer(w.probe(1)), layer.layer(w.probe(2))];
         for (i, r) in cfg.reqs.iter().enumerate() {
